@@ -9,25 +9,15 @@ NoExpC == -1
 NoTOC == -1
 TrDev == {}
 TrStyles == {"scope", "native"}
-DevAll == {"KeepaliveCountsAll", "AbandonAssignedFresh", "TimeoutAfterAssign", "CancelAtGateLeavesNew", "EstabFailLeaksStream", "CancelInEstabLeaksStream", "NativeCancelInShield", "ReconnectOnFailed", "WaiterCancelFlagsFailed"}
-D1 == {"KeepaliveCountsAll"}
-D2 == {"AbandonAssignedFresh"}
-D3 == {"TimeoutAfterAssign"}
-D4 == {"CancelAtGateLeavesNew"}
-D5 == {"EstabFailLeaksStream"}
-D6 == {"CancelInEstabLeaksStream"}
-D7 == {"NativeCancelInShield"}
-D8 == {"ReconnectOnFailed"}
-D9 == {"WaiterCancelFlagsFailed"}
-NoD1 == DevAll \ D1
-NoD2 == DevAll \ D2
-NoD3 == DevAll \ D3
-NoD4 == DevAll \ D4
-NoD5 == DevAll \ D5
-NoD6 == DevAll \ D6
-NoD7 == DevAll \ D7
-NoD8 == DevAll \ D8
-NoD9 == DevAll \ D9
-RelaxInv == {"i.ConnLimit", "i.Forgotten", "i.NoZombie", "i.StreamOwned", "i.NoStuckCaller"}
 TrRelax == {}
+AllDevs == <<"KeepaliveCountsAll", "AbandonAssignedFresh", "TimeoutAfterAssign", "CancelAtGateLeavesNew",
+             "EstabFailLeaksStream", "CancelInEstabLeaksStream", "NativeCancelInShield", "ReconnectOnFailed",
+             "WaiterCancelFlagsFailed">>
+DevAll == {AllDevs[i] : i \in DOMAIN AllDevs}
+ChoiceIntended == <<{}>>
+\* diagnosis round 1: each deviation alone, then all together
+ChoiceSingles == [i \in 1..(Len(AllDevs) + 1) |-> IF i <= Len(AllDevs) THEN {AllDevs[i]} ELSE DevAll]
+\* diagnosis round 2: all but one
+ChoiceLeaveOneOut == [i \in 1..Len(AllDevs) |-> DevAll \ {AllDevs[i]}]
+RelaxInv == {"i.ConnLimit", "i.Forgotten", "i.NoZombie", "i.StreamOwned", "i.NoStuckCaller"}
 =============================================================================
